@@ -300,6 +300,7 @@ Proof.
   replace (N.of_nat (length start) * N.of_nat (length rest))%N with (N.of_nat (length ds)) by (rewrite Hdl; lia).
   rewrite spec_expand_encode_deltas.
   - rewrite Nat2N.id. unfold ds. rewrite spec_deltas_cols, spec_slices_cols.
+    fold start.
     rewrite (sp_combine_seq _ _ start (col_diffs start rest) 0), map_map. cbn [fst snd].
     f_equal. f_equal.
     replace (S (length rest)) with (length (start :: rest)) by reflexivity.
@@ -360,5 +361,540 @@ Qed.
 
 End Zlib.
 
+
+(* ================================================================== part B: the model of the library against the specification *)
+From FV.Model Require Import Metrics Codec Collector Wf RoundTrip.
+From FV.Proofs Require Import MetricsProofs CodecChunk CodecProofs.
+
+(* ------------------------------------------------------------------ metric extraction *)
+(* every date leaf lies in the range Go expresses in nanoseconds (the library goes
+   through time.Time; outside this range its millisecond value differs from the
+   document's) *)
+Fixpoint dates_ok (v : value) : bool :=
+  match v with
+  | VDateTime ms => date_ok ms
+  | VDoc d => (fix go (l : list (bytes * value)) : bool :=
+                 match l with [] => true | (_, x) :: r => dates_ok x && go r end) d
+  | VArr a => (fix go (l : list value) : bool :=
+                 match l with [] => true | x :: r => dates_ok x && go r end) a
+  | _ => true
+  end.
+Fixpoint doc_dates_ok (d : doc) : bool :=
+  match d with [] => true | (_, x) :: r => dates_ok x && doc_dates_ok r end.
+Fixpoint arr_dates_ok (a : list value) : bool :=
+  match a with [] => true | x :: r => dates_ok x && arr_dates_ok r end.
+Fixpoint spec_metrics_arr (a : list value) : list Z :=
+  match a with [] => [] | x :: r => spec_metrics x ++ spec_metrics_arr r end.
+
+Lemma dates_ok_VDoc : forall d, dates_ok (VDoc d) = doc_dates_ok d.
+Proof. reflexivity. Qed.
+Lemma dates_ok_VArr : forall a, dates_ok (VArr a) = arr_dates_ok a.
+Proof. reflexivity. Qed.
+Lemma spec_metrics_VDoc : forall d, spec_metrics (VDoc d) = spec_metrics_doc d.
+Proof. reflexivity. Qed.
+Lemma spec_metrics_VArr : forall a, spec_metrics (VArr a) = spec_metrics_arr a.
+Proof. reflexivity. Qed.
+
+Definition sflat_P (v : value) : Prop := dates_ok v = true -> map snd (flatten v) = spec_metrics v.
+
+Lemma sflat_doc_F : forall d, Forall (fun kv => sflat_P (snd kv)) d ->
+  doc_dates_ok d = true -> map snd (flatten_doc d) = spec_metrics_doc d.
+Proof.
+  intros d HF. induction HF as [|[k x] r Hx HF IH]; intros Hok; [reflexivity|].
+  cbn [snd] in Hx. cbn [doc_dates_ok] in Hok. apply andb_true_iff in Hok. destruct Hok as [H1 H2].
+  cbn [flatten_doc spec_metrics_doc]. rewrite map_app, (Hx H1), (IH H2). reflexivity.
+Qed.
+
+Lemma sflat_arr_F : forall a, Forall sflat_P a ->
+  arr_dates_ok a = true -> map snd (flatten_arr a) = spec_metrics_arr a.
+Proof.
+  intros a HF. induction HF as [|x r Hx HF IH]; intros Hok; [reflexivity|].
+  cbn [arr_dates_ok] in Hok. apply andb_true_iff in Hok. destruct Hok as [H1 H2].
+  cbn [flatten_arr spec_metrics_arr]. rewrite map_app, (Hx H1), (IH H2). reflexivity.
+Qed.
+
+Lemma sflat_value : forall v, sflat_P v.
+Proof.
+  induction v using MetricsProofs.value_ind'; unfold sflat_P; intros Hok; try reflexivity.
+  - rewrite flatten_VDoc, spec_metrics_VDoc. apply sflat_doc_F; [assumption|]. rewrite dates_ok_VDoc in Hok. exact Hok.
+  - rewrite flatten_VArr, spec_metrics_VArr. apply sflat_arr_F; [assumption|]. rewrite dates_ok_VArr in Hok. exact Hok.
+  - cbn [dates_ok] in Hok. cbn [flatten map snd spec_metrics]. rewrite epoch_ms_id by exact Hok. reflexivity.
+Qed.
+
+(* the model's extraction yields the specification's metric vector *)
+Lemma vrow_spec : forall d, doc_dates_ok d = true -> vrow d = spec_metrics_doc d.
+Proof.
+  intros d Hok. unfold vrow. apply sflat_doc_F; [|exact Hok].
+  apply Forall_forall. intros kv _. apply sflat_value.
+Qed.
+
+Definition ldates_P (v : value) : Prop := leaves_ok v = true -> dates_ok v = true.
+
+Lemma ldates_doc_F : forall d, Forall (fun kv => ldates_P (snd kv)) d -> doc_leaves_ok d = true -> doc_dates_ok d = true.
+Proof.
+  intros d HF. induction HF as [|[k x] r Hx HF IH]; intros Hok; [reflexivity|].
+  cbn [snd] in Hx. cbn [doc_leaves_ok] in Hok. apply andb_true_iff in Hok. destruct Hok as [H1 H2].
+  cbn [doc_dates_ok]. rewrite (Hx H1), (IH H2). reflexivity.
+Qed.
+
+Lemma ldates_arr_F : forall a, Forall ldates_P a -> arr_leaves_ok a = true -> arr_dates_ok a = true.
+Proof.
+  intros a HF. induction HF as [|x r Hx HF IH]; intros Hok; [reflexivity|].
+  cbn [arr_leaves_ok] in Hok. apply andb_true_iff in Hok. destruct Hok as [H1 H2].
+  cbn [arr_dates_ok]. rewrite (Hx H1), (IH H2). reflexivity.
+Qed.
+
+Lemma ldates_value : forall v, ldates_P v.
+Proof.
+  induction v using MetricsProofs.value_ind'; unfold ldates_P; intros Hok; try reflexivity.
+  - rewrite dates_ok_VDoc. apply ldates_doc_F; [assumption|]. rewrite leaves_ok_VDoc in Hok. exact Hok.
+  - rewrite dates_ok_VArr. apply ldates_arr_F; [assumption|]. rewrite leaves_ok_VArr in Hok. exact Hok.
+  - exact Hok.
+Qed.
+
+Lemma leaves_dates_ok : forall d, doc_leaves_ok d = true -> doc_dates_ok d = true.
+Proof.
+  intros d Hok. apply ldates_doc_F; [|exact Hok]. apply Forall_forall. intros kv _. apply ldates_value.
+Qed.
+
+Lemma metrics_start_spec : forall ref, doc_dates_ok ref = true -> doc_has_ts_seconds ref = false ->
+  map m_start (metrics_of_doc [] ref) = spec_metrics_doc ref.
+Proof. intros ref Hd Hts. rewrite (metrics_of_doc_start [] ref Hts). apply (vrow_spec ref Hd). Qed.
+
+(* ------------------------------------------------------------------ the model's zero-run coder is the canonical cutting *)
+Lemma u64_zero : u64 0 = 0%N.
+Proof. reflexivity. Qed.
+
+Lemma rle_spec : forall ds z f, Forall (fun d => in_i64 d = true) ds -> (z + length ds <= f)%nat ->
+  rle (N.of_nat z) ds = enc_toks (spec_tokens f [] (repeat 0%N z ++ map u64 ds)).
+Proof.
+  induction ds as [|d r IH]; intros z f Hall Hf.
+  - cbn [rle map]. rewrite app_nil_r. unfold flush_zeros.
+    destruct z as [|z].
+    + cbn [repeat]. rewrite spec_tokens_nil. reflexivity.
+    + replace (N.of_nat (S z) =? 0)%N with false by dlia.
+      destruct f as [|f]; [cbn [length] in Hf; lia|].
+      cbn [repeat]. rewrite spec_tokens_zero. unfold piece_of. cbn [tl].
+      change (0%N :: repeat 0%N z) with (repeat 0%N (S z)).
+      rewrite <- (app_nil_r (repeat 0%N (S z))), (count_zeros_repeat (S z) [] I), app_nil_r.
+      rewrite skipn_all2 by (rewrite repeat_length; lia).
+      rewrite spec_tokens_nil, enc_toks_cons. cbn [enc_tok]. unfold enc_toks. cbn [map concat].
+      rewrite app_nil_r. replace (N.of_nat (S z - 1)) with (N.of_nat (S z) - 1)%N by dlia. reflexivity.
+  - inversion Hall as [|d' r' Hd Hr]; subst. cbn [rle map length] in *.
+    destruct (d =? 0) eqn:Hd0.
+    + assert (d = 0) by dlia. subst d. rewrite u64_zero.
+      replace (N.of_nat z + 1)%N with (N.of_nat (S z)) by dlia.
+      rewrite (IH (S z) f Hr) by lia. rewrite repeat_snoc_app. reflexivity.
+    + assert (Hu : u64 d <> 0%N) by (rewrite u64_zero_iff by exact Hd; dlia).
+      destruct z as [|z].
+      * cbn [repeat app]. change (N.of_nat 0) with 0%N. unfold flush_zeros. change (0 =? 0)%N with true. cbn iota.
+        destruct f as [|f]; [lia|].
+        rewrite spec_tokens_val by exact Hu. rewrite enc_toks_cons. cbn [enc_tok app].
+        pose proof (IH 0%nat f Hr ltac:(lia)) as IH0. cbn [repeat app] in IH0. change (N.of_nat 0) with 0%N in IH0.
+        rewrite IH0. reflexivity.
+      * unfold flush_zeros. replace (N.of_nat (S z) =? 0)%N with false by dlia.
+        destruct f as [|f]; [lia|]. destruct f as [|f]; [lia|].
+        cbn [repeat app]. rewrite spec_tokens_zero. unfold piece_of. cbn [tl].
+        change (0%N :: repeat 0%N z ++ u64 d :: map u64 r) with (repeat 0%N (S z) ++ u64 d :: map u64 r).
+        rewrite (count_zeros_repeat (S z) (u64 d :: map u64 r) Hu).
+        rewrite skipn_app_exact by apply repeat_length.
+        rewrite spec_tokens_val by exact Hu. rewrite !enc_toks_cons. cbn [enc_tok].
+        pose proof (IH 0%nat f Hr ltac:(lia)) as IH0. cbn [repeat app] in IH0. change (N.of_nat 0) with 0%N in IH0.
+        rewrite IH0.
+        replace (N.of_nat (S z - 1)) with (N.of_nat (S z) - 1)%N by dlia.
+        rewrite <- !app_assoc. reflexivity.
+Qed.
+
+Lemma rle_canonical : forall ds, Forall (fun d => in_i64 d = true) ds ->
+  rle 0%N ds = spec_encode_deltas [] (map u64 ds).
+Proof.
+  intros ds Hall. unfold spec_encode_deltas. fold (enc_toks (spec_tokens (length (map u64 ds)) [] (map u64 ds))).
+  rewrite map_length. apply (rle_spec ds 0%nat (length ds) Hall). lia.
+Qed.
+
+(* ------------------------------------------------------------------ metric-major deltas *)
+Lemma u64_wrap64 : forall z, u64 (wrap64 z) = u64 z.
+Proof. intros z. unfold u64, wrap64. dlia. Qed.
+
+Lemma map_u64_deltas_of : forall vals s, map u64 (deltas_of s vals) = spec_diffs s vals.
+Proof.
+  induction vals as [|v r IH]; intros s; [reflexivity|].
+  cbn [deltas_of map spec_diffs]. rewrite u64_wrap64, IH. reflexivity.
+Qed.
+
+Lemma metric_major_spec : forall m d0 ds,
+  Forall (fun d => length (flatten_doc d) = length (flatten_doc d0)) ds ->
+  map u64 (metric_major m (delta_rows d0 ds)) = spec_deltas m (vrow d0 :: map vrow ds).
+Proof.
+  intros m d0 ds Hlens. unfold metric_major. rewrite spec_deltas_cols.
+  rewrite !flat_map_concat_map, concat_map, map_map. f_equal. apply map_ext. intros i.
+  rewrite (column_delta_rows i ds d0 Hlens), map_u64_deltas_of.
+  unfold col_diffs, spec_column. rewrite map_map. reflexivity.
+Qed.
+
+(* ------------------------------------------------------------------ little-endian words keep the low bytes only *)
+Lemma le_enc_mod : forall n x, le_enc n (x mod 256 ^ N.of_nat n)%N = le_enc n x.
+Proof.
+  induction n as [|n IH]; intros x; [reflexivity|].
+  cbn [le_enc]. rewrite Nat2N.inj_succ, N.pow_succ_r'.
+  assert (Hp : (256 ^ N.of_nat n <> 0)%N) by (apply N.pow_nonzero; discriminate).
+  rewrite (N.mod_mul_r x 256 (256 ^ N.of_nat n)) by (try exact Hp; discriminate).
+  set (q := ((x / 256) mod 256 ^ N.of_nat n)%N).
+  replace ((x mod 256 + 256 * q) mod 256)%N with (x mod 256)%N by dlia.
+  replace ((x mod 256 + 256 * q) / 256)%N with q by dlia.
+  unfold q. rewrite IH. reflexivity.
+Qed.
+
+Lemma le_enc4_mod : forall x, le_enc 4 (x mod 2 ^ 32)%N = le_enc 4 x.
+Proof. intros x. apply (le_enc_mod 4 x). Qed.
+
+(* ------------------------------------------------------------------ payload (model) = canonical payload (specification) *)
+Definition group_ok (d0 : doc) (d : doc) : Prop :=
+  length (flatten_doc d) = length (flatten_doc d0) /\ doc_dates_ok d = true.
+
+Lemma payload_canonical : forall d0 ds, Forall (group_ok d0) (d0 :: ds) ->
+  payload d0 (length (flatten_doc d0)) (delta_rows d0 ds) = canonical_payload d0 (map spec_metrics_doc ds).
+Proof.
+  intros d0 ds Hall. inversion Hall as [|x y [_ Hd0] Hds]; subst.
+  unfold payload, canonical_payload, spec_payload.
+  rewrite <- (vrow_spec d0 Hd0).
+  assert (Hvl : length (vrow d0) = length (flatten_doc d0)) by (unfold vrow; apply map_length).
+  rewrite Hvl, !le_enc4_mod, delta_rows_length, map_length.
+  do 3 f_equal.
+  rewrite rle_canonical by (unfold metric_major; apply flat_map_column_in_i64; apply delta_rows_in_i64).
+  f_equal. rewrite metric_major_spec.
+  - f_equal. f_equal. apply map_ext_in. intros d Hd. rewrite Forall_forall in Hds. apply vrow_spec. apply (Hds d Hd).
+  - revert Hds. apply Forall_impl. intros d [Hl _]. exact Hl.
+Qed.
+
+Section Canon.
+Variable deflate : bytes -> bytes.
+Variable inflate : bytes -> option bytes.
+Hypothesis inflate_deflate : forall p, inflate (deflate p) = Some p.
+
+(* the outer document of a group is the canonical chunk of the group *)
+Lemma group_chunk_canonical : forall s d0 ds, Forall (group_ok d0) (d0 :: ds) ->
+  group_chunk deflate s d0 ds = canonical_chunk deflate s d0 (map spec_metrics_doc ds).
+Proof.
+  intros s d0 ds Hall.
+  unfold group_chunk, chunk_doc, canonical_chunk, spec_chunk_doc, compress, spec_data.
+  rewrite (payload_canonical d0 ds Hall), le_enc4_mod. reflexivity.
+Qed.
+
+(* what the encode direction needs of an input document *)
+Definition doc_fine (sk : doc) (d : doc) : Prop :=
+  skeleton_doc d = sk /\ doc_ok d = true /\ doc_leaves_ok d = true /\ Wf.small (enc_doc d) /\
+  (N.of_nat (length (flatten_doc d)) < 2 ^ 32)%N.
+
+Definition canon_of (cd : doc) (g : list doc) : Prop :=
+  exists id, in_i64 id = true /\ g <> [] /\ cd = canonical_chunk deflate id (hd [] g) (map spec_metrics_doc (tl g)).
+
+Definition group_table (g : list doc) : table := (map spec_metrics_doc g, hd [] g).
+
+Definition group_small (g : list doc) : Prop :=
+  (N.of_nat (length (canonical_payload (hd [] g) (map spec_metrics_doc (tl g)))) < 2 ^ 32)%N.
+
+Lemma fine_group_ok : forall sk d0 ds, Forall (doc_fine sk) (d0 :: ds) -> Forall (group_ok d0) (d0 :: ds).
+Proof.
+  intros sk d0 ds Hall. inversion Hall as [|x y Hd0 _]; subst.
+  revert Hall. apply Forall_impl. intros d (Hsk & _ & Hlv & _). split.
+  - apply same_skeleton_length. destruct Hd0 as [Hsk0 _]. congruence.
+  - apply leaves_dates_ok. exact Hlv.
+Qed.
+
+Lemma canon_groups : forall n sk cds groups, n < 2 ^ 31 ->
+  Forall2 (is_chunk deflate n) cds groups -> Forall (doc_fine sk) (concat groups) ->
+  Forall2 canon_of cds groups /\
+  (Forall group_small groups -> spec_decode_stream inflate cds = Some (map group_table groups)).
+Proof.
+  intros n sk cds groups Hn HF. induction HF as [|cd g cds groups Hcd HF IH]; intros Hfine.
+  - split; [constructor|reflexivity].
+  - cbn [concat] in Hfine. apply Forall_app in Hfine. destruct Hfine as [Hg Hrest].
+    destruct (IH Hrest) as [IH1 IH2].
+    destruct Hcd as [s [d0 [ds [Eg [Hs [Hlen Ecd]]]]]]. subst g.
+    pose proof (fine_group_ok sk d0 ds Hg) as Hgok.
+    rewrite (group_chunk_canonical s d0 ds Hgok) in Ecd.
+    split.
+    + constructor; [|exact IH1]. exists s. split; [exact Hs|]. split; [discriminate|exact Ecd].
+    + intros Hsmall. inversion Hsmall as [|x y Hsm Hsmr]; subst x y.
+      cbn [spec_decode_stream]. rewrite Ecd. unfold canonical_chunk.
+      rewrite spec_class_chunk by reflexivity.
+      rewrite (spec_chunk_roundtrip deflate inflate inflate_deflate).
+      * rewrite (IH2 Hsmr). reflexivity.
+      * inversion Hg as [|x y Hd0 Hds]; subst x y.
+        destruct Hd0 as (Hsk0 & Hok0 & Hlv0 & Hsm0 & Hm0).
+        inversion Hgok as [|x y [_ Hdt0] Hgds]; subst x y.
+        assert (Hl0 : length (spec_metrics_doc d0) = length (flatten_doc d0))
+          by (rewrite <- (vrow_spec d0 Hdt0); unfold vrow; apply map_length).
+        split; [exact Hok0|]. split; [exact Hsm0|]. split.
+        { apply Forall_forall. intros row Hrow. apply in_map_iff in Hrow. destruct Hrow as [d [Hrow Hd]]. subst row.
+          rewrite Forall_forall in Hgds, Hds. destruct (Hgds d Hd) as [Hl Hdt]. destruct (Hds d Hd) as (_ & _ & Hlv & _).
+          rewrite <- (vrow_spec d Hdt). split.
+          - unfold vrow. rewrite map_length, Hl0. exact Hl.
+          - unfold vrow. apply Forall_forall. intros x Hx. apply in_map_iff in Hx. destruct Hx as [mx [Hx Hin]]. subst x.
+            pose proof (flatten_in_i64 d Hlv) as HFi. rewrite Forall_forall in HFi. apply HFi. exact Hin. }
+        split; [rewrite Hl0; exact Hm0|]. split; [rewrite map_length; lia|].
+        exact Hsm.
+Qed.
+
+(* C03, encode direction *)
+Theorem spec_encode_canonical : forall k n docs nows,
+  compressing k = true -> 1 <= n < 2 ^ 31 ->
+  (docs <> [] /\ length nows = length docs /\ Forall (fun t => in_i64 t = true) nows /\
+   same_schema docs /\
+   Forall (fun d => doc_ok d = true /\ doc_leaves_ok d = true /\ Wf.small (enc_doc d)) docs /\
+   (N.of_nat (length (flatten_doc (hd [] docs))) < 2 ^ 32)%N) ->
+  fits k n docs ->
+  let res := emit deflate k n docs nows in
+  snd res = map (fun _ => BAdd ROk) docs ++ [BFlush true] /\
+  exists groups,
+    concat groups = docs /\
+    Forall2 canon_of (emitted (snd (fst res))) groups /\
+    (Forall group_small groups ->
+     spec_decode_stream inflate (emitted (snd (fst res))) = Some (map group_table groups)).
+Proof.
+  intros k n docs nows Hk Hn (Hne & Hlen & Hnows & Hss & Hall & Hm) Hfits res. subst res.
+  set (sk := skeleton_doc (hd [] docs)).
+  assert (Hsk : forall d, In d docs -> skeleton_doc d = sk).
+  { intros d Hd. apply Hss; [exact Hd|apply hd_in; exact Hne]. }
+  assert (Hcol : Forall (dcol sk) docs).
+  { apply Forall_forall. intros d Hd. rewrite Forall_forall in Hall. split; [apply Hsk; exact Hd|apply (Hall d Hd)]. }
+  destruct (emit_groups deflate k n sk docs nows Hk ltac:(lia) Hne Hlen Hnows Hcol Hfits)
+    as (c & w & groups & Hemit & [_ Hem] & Hcat).
+  rewrite Hemit. cbn [fst snd]. split; [reflexivity|].
+  exists groups. split; [exact Hcat|].
+  apply (canon_groups n sk); [lia|exact Hem|].
+  rewrite Hcat. apply Forall_forall. intros d Hd.
+  rewrite Forall_forall in Hall. destruct (Hall d Hd) as (Hok & Hlv & Hsm).
+  split; [apply Hsk; exact Hd|]. split; [exact Hok|]. split; [exact Hlv|]. split; [exact Hsm|].
+  rewrite (same_skeleton_length d (hd [] docs)); [exact Hm|apply Hsk; exact Hd].
+Qed.
+
+End Canon.
+
+(* ------------------------------------------------------------------ decode direction: the reader accepts what the specification accepts *)
+Lemma is_num_spec : forall n v, is_num n (Some v) = spec_num_is n v.
+Proof. intros n v. destruct v; reflexivity. Qed.
+
+Lemma read_le4_inv : forall l x r, read_le 4 l = Some (x, r) ->
+  (4 <= length l)%nat /\ x = le_dec (firstn 4 l) /\ r = skipn 4 l.
+Proof.
+  intros l x r H. unfold read_le, take_exact in H.
+  destruct (Nat.leb 4 (length l)) eqn:E; [|discriminate H].
+  apply Nat.leb_le in E. injection H as H1 H2. repeat split; [exact E|symmetry; exact H1|symmetry; exact H2].
+Qed.
+
+Lemma sp_map_repeat : forall (A B : Type) (f : A -> B) x n, map f (repeat x n) = repeat (f x) n.
+Proof. intros A B f x n. induction n as [|n IH]; [reflexivity|]. cbn [repeat map]. rewrite IH. reflexivity. Qed.
+
+(* the loop invariant of the reader's zero-run carry against the specification's
+   expansion, for an arbitrary cutting of the zeros *)
+Lemma expand_read_deltas : forall fuel remaining bs ds,
+  spec_expand fuel remaining bs = Some ds ->
+  read_deltas (N.to_nat remaining) 0%N bs = Some (map s64 ds, []).
+Proof.
+  induction fuel as [|f IH]; intros remaining bs ds H; [discriminate H|].
+  rewrite spec_expand_S in H.
+  destruct (remaining =? 0)%N eqn:Hrem.
+  - assert (remaining = 0%N) by dlia. subst remaining.
+    destruct bs as [|b bs]; [|discriminate H]. injection H as H. subst ds. reflexivity.
+  - destruct (uvarint_dec bs) as [d r| | |] eqn:Hd; try discriminate H.
+    destruct (d =? 0)%N eqn:Hd0.
+    + assert (d = 0%N) by dlia. subst d.
+      destruct (uvarint_dec r) as [n r'| | |] eqn:Hn; try discriminate H.
+      destruct (n + 1 <=? remaining)%N eqn:Hle; [|discriminate H].
+      destruct (spec_expand f (remaining - (n + 1))%N r') as [ds'|] eqn:E; [|discriminate H].
+      injection H as H. subst ds.
+      specialize (IH _ _ _ E).
+      replace (N.to_nat remaining) with (S (N.to_nat n + N.to_nat (remaining - (n + 1)))) by dlia.
+      rewrite read_deltas_S. change (0 =? 0)%N with true. cbn iota.
+      rewrite Hd. change (0 =? 0)%N with true. cbn iota. rewrite Hn.
+      rewrite (read_deltas_pending (N.to_nat n) n _ r') by apply N2Nat.id.
+      rewrite IH. unfold prefix_zeros.
+      replace (N.to_nat (n + 1)) with (S (N.to_nat n)) by dlia.
+      rewrite map_app, sp_map_repeat. reflexivity.
+    + destruct (spec_expand f (remaining - 1)%N r) as [ds'|] eqn:E; [|discriminate H].
+      injection H as H. subst ds.
+      specialize (IH _ _ _ E).
+      replace (N.to_nat remaining) with (S (N.to_nat (remaining - 1))) by dlia.
+      rewrite read_deltas_S. change (0 =? 0)%N with true. cbn iota.
+      rewrite Hd, Hd0, IH. reflexivity.
+Qed.
+
+Lemma split_every_map : forall n k (l : list N),
+  split_every n k (map s64 l) = map (map s64) (spec_slices n k l).
+Proof.
+  intros n k. induction k as [|k IH]; intros l; [reflexivity|].
+  cbn [split_every spec_slices map]. rewrite firstn_map, skipn_map, IH. reflexivity.
+Qed.
+
+Lemma wrap64_add_s64 : forall s d, wrap64 (s + s64 d) = wrap64 (s + Z.of_N d).
+Proof. intros s d. unfold s64, wrap64. dlia. Qed.
+
+Lemma undelta_spec_sums : forall ds s, undelta s (map s64 ds) = spec_sums s ds.
+Proof.
+  induction ds as [|d r IH]; intros s; [reflexivity|].
+  cbn [map undelta spec_sums]. rewrite wrap64_add_s64, IH. reflexivity.
+Qed.
+
+Lemma rows_agree : forall j ms (colsN : list (list N)),
+  map (fun mc : metric * list Z => nth j (undelta (m_start (fst mc)) (snd mc)) 0) (combine ms (map (map s64) colsN))
+  = map (fun sc : Z * list N => nth j (spec_sums (fst sc) (snd sc)) 0) (combine (map m_start ms) colsN).
+Proof.
+  intros j. induction ms as [|m ms IH]; intros colsN; [reflexivity|].
+  destruct colsN as [|c colsN]; [reflexivity|].
+  cbn [map combine fst snd]. rewrite undelta_spec_sums, IH. reflexivity.
+Qed.
+
+Definition chunk_samples (c : chunk) : list (list Z) :=
+  map (sample_row c) (seq 0 (Z.to_nat (ck_npoints c))).
+
+(* the documents in scope: date leaves in Go's range, no timestamp with non-zero
+   seconds (the class of the known finding D1) *)
+Definition ref_in_scope (ref : doc) : Prop := doc_dates_ok ref = true /\ doc_has_ts_seconds ref = false.
+
+(* the library refuses chunks beyond a fixed number of values; [None] = no bound *)
+Definition cap_allows (cap : option N) (t : table) : Prop :=
+  match cap with
+  | Some c => (N.of_nat (length (spec_metrics_doc (snd t))) * N.of_nat (length (fst t) - 1) <= c)%N
+  | None => True
+  end.
+
+Lemma spec_rows_length : forall n cols, length (spec_rows n cols) = n.
+Proof. intros n cols. unfold spec_rows. rewrite map_length, seq_length. reflexivity. Qed.
+
+Section Reader.
+Variable inflate : bytes -> option bytes.
+
+Lemma spec_chunk_read : forall cap meta d t,
+  spec_decode_chunk inflate d = Some t -> ref_in_scope (snd t) -> cap_allows cap t ->
+  exists c, read_chunk_gen inflate cap meta d = inl c /\
+            chunk_samples c = fst t /\ ck_ref c = snd t /\ ck_meta c = meta.
+Proof.
+  intros cap meta d t H Hscope Hcap.
+  unfold spec_decode_chunk in H.
+  destruct (lookup f_id d) as [vid|]; [|discriminate H].
+  destruct vid; try discriminate H.
+  destruct (lookup f_data d) as [vd|] eqn:Ed; [|discriminate H].
+  destruct vd as [| | | |st b| | | | | | | | | | | | | | | |]; try discriminate H.
+  destruct (negb (st =? 0)%N); [discriminate H|].
+  destruct (read_le 4 b) as [[len z]|] eqn:Eb; [|discriminate H].
+  destruct (inflate z) as [p|] eqn:Ez; [|discriminate H].
+  destruct (len =? N.of_nat (length p))%N; [|discriminate H].
+  unfold spec_decode_payload in H.
+  destruct (dec_doc p) as [[ref r1]|] eqn:Edoc; [|discriminate H].
+  destruct (read_le 4 r1) as [[nm r2]|] eqn:E1; [|discriminate H].
+  destruct (read_le 4 r2) as [[nd r3]|] eqn:E2; [|discriminate H].
+  cbv zeta in H.
+  destruct (negb (nm =? N.of_nat (length (spec_metrics_doc ref)))%N) eqn:Enm; [discriminate H|].
+  destruct (spec_expand (S (length r3)) (nm * nd)%N r3) as [dsN|] eqn:Eexp; [|discriminate H].
+  injection H as H. subst t. cbn [fst snd] in *.
+  destruct Hscope as [Hdates Hts].
+  apply read_le4_inv in Eb. destruct Eb as (Hbl & _ & Ez').
+  apply read_le4_inv in E1. destruct E1 as (Hl1 & Enm1 & Er2).
+  apply read_le4_inv in E2. destruct E2 as (Hl2 & End & Er3).
+  assert (Hnm : nm = N.of_nat (length (spec_metrics_doc ref))) by dlia.
+  assert (Hlm : length (metrics_of_doc [] ref) = length (spec_metrics_doc ref)).
+  { rewrite metrics_of_doc_length, <- (vrow_spec ref Hdates). unfold vrow. rewrite map_length. reflexivity. }
+  unfold read_chunk_gen.
+  change (lookup k_data d) with (lookup f_data d). rewrite Ed.
+  replace (Nat.ltb (length b) 4) with false by (symmetry; apply Nat.ltb_ge; exact Hbl).
+  rewrite <- Ez', Ez, Edoc.
+  assert (Hl8 : (8 <= length r1)%nat) by (rewrite Er2, skipn_length in Hl2; lia).
+  unfold take_exact. replace (Nat.leb 8 (length r1)) with true by (symmetry; apply Nat.leb_le; exact Hl8).
+  cbv zeta.
+  rewrite firstn_firstn. change (Init.Nat.min 4 8) with 4%nat.
+  replace (skipn 4 (firstn 8 r1)) with (firstn 4 (skipn 4 r1)) by (rewrite firstn_skipn_comm; reflexivity).
+  rewrite <- Er2, <- Enm1, <- End.
+  replace (skipn 8 r1) with r3 by (rewrite Er3, Er2, sp_skipn_skipn; reflexivity).
+  rewrite Hlm, <- Hnm, N.eqb_refl. cbn [negb].
+  assert (Hlen_rows : length (spec_rows (S (N.to_nat nd))
+      (map (fun sc : Z * list N => spec_sums (fst sc) (snd sc))
+         (combine (spec_metrics_doc ref) (spec_slices (N.to_nat nd) (length (spec_metrics_doc ref)) dsN)))) = S (N.to_nat nd))
+    by apply spec_rows_length.
+  replace (match cap with Some c => (c <? nm * nd)%N | None => false end) with false.
+  2:{ destruct cap as [c|]; [|reflexivity]. cbn [cap_allows fst snd] in Hcap. rewrite Hlen_rows in Hcap. symmetry. dlia. }
+  rewrite (expand_read_deltas _ _ _ _ Eexp).
+  eexists. split; [reflexivity|]. split; [|split; reflexivity].
+  unfold chunk_samples. cbn [ck_npoints ck_metrics].
+  replace (Z.to_nat (Z.of_N nd + 1)) with (S (N.to_nat nd)) by dlia.
+  unfold spec_rows. apply map_ext. intros j.
+  unfold sample_row. cbn [ck_metrics]. rewrite !map_map. cbn [snd fst].
+  rewrite split_every_map, rows_agree, (metrics_start_spec ref Hdates Hts). reflexivity.
+Qed.
+
+(* C03, decode direction *)
+Theorem spec_decode_complete : forall cap ds ts,
+  spec_decode_stream inflate ds = Some ts ->
+  Forall (fun t => ref_in_scope (snd t) /\ cap_allows cap t) ts ->
+  forall meta, exists cs,
+    read_chunks_gen inflate cap meta ds = (cs, None) /\
+    map (fun c => (chunk_samples c, ck_ref c)) cs = ts.
+Proof.
+  intros cap ds. induction ds as [|d r IH]; intros ts H Hall meta.
+  - injection H as H. subst ts. exists []. split; reflexivity.
+  - cbn [spec_decode_stream] in H. cbn [read_chunks_gen].
+    unfold spec_class in H. change (lookup k_type d) with (lookup f_type d).
+    destruct (lookup f_type d) as [v|].
+    + rewrite !is_num_spec.
+      destruct (spec_num_is 0 v).
+      * apply (IH ts H Hall).
+      * destruct (spec_num_is 1 v); cbn [negb].
+        -- destruct (spec_decode_chunk inflate d) as [t|] eqn:Ec; [|discriminate H].
+           destruct (spec_decode_stream inflate r) as [ts'|] eqn:Er; [|discriminate H].
+           injection H as H. subst ts. inversion Hall as [|x y [Hsc Hcp] Hrest]; subst x y.
+           destruct (spec_chunk_read cap meta d t Ec Hsc Hcp) as [c (Hc & Hs & Hr & _)].
+           destruct (IH ts' eq_refl Hrest meta) as [cs [Hcs Hmap]].
+           exists (c :: cs). rewrite Hc, Hcs. split; [reflexivity|].
+           cbn [map]. rewrite Hs, Hr, Hmap. destruct t; reflexivity.
+        -- apply (IH ts H Hall).
+    + cbn [is_num negb]. apply (IH ts H Hall).
+Qed.
+
+(* without a bound on the chunk size *)
+Theorem spec_decode_complete_unbounded : forall ds ts,
+  spec_decode_stream inflate ds = Some ts -> Forall (fun t => ref_in_scope (snd t)) ts ->
+  exists cs, read_chunks inflate None ds = (cs, None) /\ map (fun c => (chunk_samples c, ck_ref c)) cs = ts.
+Proof.
+  intros ds ts H Hall. apply (spec_decode_complete None ds ts H).
+  revert Hall. apply Forall_impl. intros t Ht. split; [exact Ht|exact I].
+Qed.
+
+End Reader.
+
+(* ------------------------------------------------------------------ a stream the library's encoder never emits *)
+Definition ex_ref : doc := [([97]%N, VInt64 10); ([98]%N, VString [120]%N); ([99]%N, VInt32 3)].
+Definition ex_rest : list (list Z) := [[15; 3]; [15; 3]; [15; 3]; [15; 10]].
+Definition ex_items : list item :=
+  [IMeta 7 (VInt64 0) [([109]%N, VString [104]%N)];
+   IOther [(f_id, VDateTime 8); (f_type, VInt32 2)];
+   IChunk 9 (VDouble 4607182418800017408) [0%N] ex_ref ex_rest].
+
+Theorem spec_example :
+  Forall item_wf ex_items /\
+  spec_encode_deltas [0%N] (spec_deltas 2 (spec_metrics_doc ex_ref :: ex_rest)) = [5; 0; 0; 0; 4; 7]%N /\
+  canonical_payload ex_ref ex_rest <> spec_payload [0%N] ex_ref ex_rest /\
+  spec_stream triv_inflate (spec_encode triv_deflate ex_items)
+              [([[10; 3]; [15; 3]; [15; 3]; [15; 3]; [15; 10]], ex_ref)] /\
+  (let '(cs, e) := read_chunks triv_inflate None (spec_encode triv_deflate ex_items) in
+   (map (fun c => (chunk_samples c, ck_ref c)) cs, e))
+  = ([([[10; 3]; [15; 3]; [15; 3]; [15; 3]; [15; 10]], ex_ref)], None).
+Proof.
+  split.
+  { constructor; [reflexivity|]. constructor; [reflexivity|]. constructor; [|constructor].
+    split; [reflexivity|]. split; [reflexivity|].
+    split; [reflexivity|]. split; [vm_compute; reflexivity|].
+    split; [repeat constructor|].
+    split; [vm_compute; reflexivity|]. split; vm_compute; reflexivity. }
+  split; [vm_compute; reflexivity|].
+  split; [vm_compute; intro H; discriminate H|].
+  split; [unfold spec_stream; vm_compute; reflexivity|].
+  vm_compute. reflexivity.
+Qed.
+
 Print Assumptions spec_stream_roundtrip.
 Print Assumptions canonical_maximal.
+Print Assumptions spec_encode_canonical.
+Print Assumptions spec_decode_complete.
+Print Assumptions spec_decode_complete_unbounded.
+Print Assumptions spec_example.
